@@ -35,6 +35,8 @@ PINNED = {
     "select.reads_late": True,
     "collect.clamp": ["(limit ≥ n)", "(-1)"],
     "collect.limit_bits": 32,
+    # pass 5
+    "distinct.keys": [True, True],
 }
 
 # C integer types a `limit` parameter of collect_cython may be declared with -> width in bits
@@ -446,6 +448,46 @@ def generate(o):
     ct = o.item("frame.collect.trunc_test", collect_trunc, PINNED["collect.trunc_test"])
     bp = o.item("frame.batches.parts", batches_parts, [PINNED["batches.range"], PINNED["batches.window"]])
     tt = o.item("frame.take.test", take_test, PINNED["take.test"])
+    def distinct_keys():
+        """[what the seen-set is asked for / given is the row itself, the same for the by-value list of the rows that
+        cannot be hashed] - from the loop of `distinct`:
+            for x in self._rows:
+                try:
+                    if <k> in seen: continue
+                    seen.add(<k>)
+                except TypeError:
+                    if <k'> in seen_unhashable: continue
+                    seen_unhashable.append(<k'>)
+                unique_rows.append(x)
+        Any other shape (a nested try, a helper, a comprehension) degrades."""
+        fn = find_function(src.tree, "distinct", "DataFrame")
+        loops = [n for n in fn.body if isinstance(n, ast.For)]
+        if len(loops) != 1 or ast.unparse(loops[0].iter) != "self._rows" or not isinstance(loops[0].target, ast.Name):
+            raise KeyError("for x in self._rows")
+        x = loops[0].target.id
+        body = loops[0].body
+        if not (len(body) == 2 and isinstance(body[0], ast.Try) and len(body[0].handlers) == 1 and not body[0].orelse and not body[0].finalbody
+                and isinstance(body[1], ast.Expr) and isinstance(body[1].value, ast.Call) and len(body[1].value.args) == 1
+                and ast.unparse(body[1].value.func).endswith(".append") and ast.unparse(body[1].value.args[0]) == x):
+            raise KeyError("try / except TypeError, then <kept>.append(x)")
+        if ast.unparse(body[0].handlers[0].type or ast.Name("")) != "TypeError":
+            raise KeyError("except TypeError")
+
+        def pair(stmts, adder):
+            if not (len(stmts) == 2 and isinstance(stmts[0], ast.If) and not stmts[0].orelse and len(stmts[0].body) == 1
+                    and isinstance(stmts[0].body[0], ast.Continue) and isinstance(stmts[0].test, ast.Compare)
+                    and len(stmts[0].test.ops) == 1 and isinstance(stmts[0].test.ops[0], ast.In)
+                    and isinstance(stmts[1], ast.Expr) and isinstance(stmts[1].value, ast.Call) and len(stmts[1].value.args) == 1
+                    and not stmts[1].value.keywords):
+                raise KeyError("if <k> in <seen>: continue; <seen>.%s(<k>)" % adder)
+            coll = ast.unparse(stmts[0].test.comparators[0])
+            if ast.unparse(stmts[1].value.func) != coll + "." + adder:
+                raise KeyError("the collection looked up is the one added to")
+            return ast.unparse(stmts[0].test.left) == x and ast.unparse(stmts[1].value.args[0]) == x
+
+        return [pair(body[0].body, "add"), pair(body[0].handlers[0].body, "append")]
+
+    dk = o.item("frame.distinct.keys", distinct_keys, PINNED["distinct.keys"])
     srl = o.item("frame.select.reads_late", select_reads_late, PINNED["select.reads_late"])
     cc = o.item("frame.collect.clamp", collect_clamp, PINNED["collect.clamp"])
     cb = o.item("frame.collect.limit_bits", collect_limit_bits, PINNED["collect.limit_bits"])
@@ -458,7 +500,8 @@ def generate(o):
                  and all(mats[k] == MATERIALISES.get(k, True) for k in mats)
                  and cl == [PINNED["collect.neg_test"], PINNED["collect.all_value"]] and ct == PINNED["collect.trunc_test"]
                  and bp == [PINNED["batches.range"], PINNED["batches.window"]] and tt == PINNED["take.test"]
-                 and srl == PINNED["select.reads_late"] and cc == PINNED["collect.clamp"] and cb == PINNED["collect.limit_bits"])
+                 and srl == PINNED["select.reads_late"] and cc == PINNED["collect.clamp"] and cb == PINNED["collect.limit_bits"]
+                 and dk == PINNED["distinct.keys"])
     o.json["frame.source_as_pinned"] = bool(as_pinned)
     text = HEADER + "set_option linter.unusedVariables false\nnamespace Gen.Frame\n"
     text += "/-- dataframe.py `slice`: the test under which the offset is counted from the end -/\n"
@@ -506,6 +549,9 @@ def generate(o):
     text += "def collectLimitMax : Int := 2 ^ %d - 1\n" % (cb - 1)
     text += "/-- `select`: the projection generator looks `self._rows` up when the selection is first read -/\n"
     text += "def selectReadsLate : Bool := %s\n" % ("true" if srl else "false")
+    text += "/-- `distinct`: what is looked up in / added to the seen-set, and the by-value list of rows that cannot be hashed, is the row itself -/\n"
+    text += "def distinctSeenKeyIsRow : Bool := %s\n" % ("true" if dk[0] else "false")
+    text += "def distinctUnhashableKeyIsRow : Bool := %s\n" % ("true" if dk[1] else "false")
     text += "/-- `to_batches`: `for i in range(start, stop, step): yield rows[lower : upper]` (`n = rowcount`) -/\n"
     text += "def batchRangeStart (n batch_size : Int) : Int := %s\n" % bp[0][0]
     text += "def batchRangeStop (n batch_size : Int) : Int := %s\n" % bp[0][1]
